@@ -1,45 +1,312 @@
 import PbVerif.Model.Pad
+import Mathlib.Tactic.Ring
+import Mathlib.Tactic.Linarith
+import Mathlib.Tactic.FieldSimp
+import Mathlib.Algebra.Order.Field.Rat
 /-! Helper lemmas for C18 (proofs). -/
 namespace PbVerif.Lemmas
 open PbVerif.Pad
 
-theorem padEdges_length (ys : List Rat) (pad wl wr : Nat) : (padEdges ys pad wl wr).length = ys.length + 2 * pad := by sorry
+/-! ### sums -/
+theorem foldl_add_acc (l : List Rat) (a : Rat) :
+    l.foldl (· + ·) a = a + l.foldl (· + ·) 0 := by
+  induction l generalizing a with
+  | nil => simp
+  | cons x l ih =>
+    simp only [List.foldl_cons]
+    rw [ih (a + x), ih (0 + x)]
+    ring
+
+theorem sumL_nil : sumL [] = 0 := rfl
+
+theorem sumL_cons (x : Rat) (l : List Rat) : sumL (x :: l) = x + sumL l := by
+  unfold sumL
+  simp only [List.foldl_cons]
+  rw [foldl_add_acc]
+  ring
+
+theorem sumL_append (l m : List Rat) : sumL (l ++ m) = sumL l + sumL m := by
+  induction l with
+  | nil => simp [sumL_nil]
+  | cons x l ih => simp only [List.cons_append, sumL_cons, ih]; ring
+
+theorem sumL_map_mul_left {α : Type} (c : Rat) (f : α → Rat) (l : List α) :
+    sumL (l.map fun x => c * f x) = c * sumL (l.map f) := by
+  induction l with
+  | nil => simp [sumL_nil]
+  | cons x l ih => simp only [List.map_cons, sumL_cons, ih]; ring
+
+theorem sumL_map_mul_right {α : Type} (c : Rat) (f : α → Rat) (l : List α) :
+    sumL (l.map fun x => f x * c) = sumL (l.map f) * c := by
+  induction l with
+  | nil => simp [sumL_nil]
+  | cons x l ih => simp only [List.map_cons, sumL_cons, ih]; ring
+
+theorem sumL_map_div {α : Type} (c : Rat) (f : α → Rat) (l : List α) :
+    sumL (l.map fun x => f x / c) = sumL (l.map f) / c := by
+  induction l with
+  | nil => simp [sumL_nil]
+  | cons x l ih => simp only [List.map_cons, sumL_cons, ih]; ring
+
+theorem sumL_map_add {α : Type} (f g : α → Rat) (l : List α) :
+    sumL (l.map fun x => f x + g x) = sumL (l.map f) + sumL (l.map g) := by
+  induction l with
+  | nil => simp [sumL_nil]
+  | cons x l ih => simp only [List.map_cons, sumL_cons, ih]; ring
+
+theorem sumL_map_const {α : Type} (c : Rat) (l : List α) :
+    sumL (l.map fun _ => c) = (l.length : Rat) * c := by
+  induction l with
+  | nil => simp [sumL_nil]
+  | cons x l ih => simp only [List.map_cons, sumL_cons, ih, List.length_cons]; push_cast; ring
+
+theorem sumL_range_succ (f : Nat → Rat) (w : Nat) :
+    sumL ((List.range (w + 1)).map f) = sumL ((List.range w).map f) + f w := by
+  rw [List.range_succ, List.map_append, sumL_append]
+  simp [sumL_cons, sumL_nil]
+
+theorem sumL_nonneg (l : List Rat) (h : ∀ v ∈ l, 0 ≤ v) : 0 ≤ sumL l := by
+  induction l with
+  | nil => simp [sumL_nil]
+  | cons x l ih =>
+    rw [sumL_cons]
+    have h1 : 0 ≤ x := h x (by simp)
+    have h2 : 0 ≤ sumL l := ih (fun v hv => h v (by simp [hv]))
+    linarith
+
+theorem map_getD_range (l : List Rat) : (List.range l.length).map (fun i => l.getD i 0) = l := by
+  apply List.ext_getElem
+  · simp
+  · intro i h1 h2
+    simp [List.getD_eq_getElem?_getD, h2]
+
+/-! ### kernels, optimize_window -/
+theorem normalize_sum (l : List Rat) (h : sumL l ≠ 0) : sumL (normalize l) = 1 := by
+  unfold normalize
+  rw [sumL_map_div (sumL l) (fun x => x) l]
+  simp only [List.map_id']
+  exact div_self h
+
+theorem normalize_nonneg (l : List Rat) (h : ∀ v ∈ l, 0 ≤ v) : ∀ v ∈ normalize l, 0 ≤ v := by
+  intro v hv
+  unfold normalize at hv
+  rw [List.mem_map] at hv
+  obtain ⟨x, hx, rfl⟩ := hv
+  exact div_nonneg (h x hx) (sumL_nonneg l h)
+
+theorem normalize_symm (l : List Rat) (h : l.reverse = l) : (normalize l).reverse = normalize l := by
+  unfold normalize
+  rw [← List.map_reverse, h]
+
+theorem optimizeWindow_ge_one (hit : Nat → Bool) (inc maxHits minHw maxHw : Nat) :
+    1 ≤ optimizeWindow hit inc maxHits minHw maxHw := by
+  unfold optimizeWindow
+  exact Nat.le_max_right _ _
+
+theorem paddedConvolveCore_length (padded kernel : List Rat) (p : Nat) :
+    (paddedConvolveCore padded kernel p).length = padded.length - 2 * p := by
+  simp [paddedConvolveCore]
+
+theorem convPadding_pos (n k : Nat) (hn : 1 ≤ n) (hk : 1 ≤ k) : 1 ≤ convPadding n k := by
+  unfold convPadding ceilHalf
+  omega
+
+/-! ### pad_edges -/
+theorem getEdges_left_length (ys : List Rat) (pad wl wr : Nat) : (getEdges ys pad wl wr).1.length = pad := by
+  unfold getEdges
+  by_cases h : wl = 1 <;> simp [h]
+
+theorem getEdges_right_length (ys : List Rat) (pad wl wr : Nat) : (getEdges ys pad wl wr).2.length = pad := by
+  unfold getEdges
+  by_cases h : wr = 1 <;> simp [h]
+
+theorem padEdges_length (ys : List Rat) (pad wl wr : Nat) : (padEdges ys pad wl wr).length = ys.length + 2 * pad := by
+  unfold padEdges
+  by_cases h : pad = 0
+  · simp [h]
+  · simp only [h, if_false, List.length_append, getEdges_left_length, getEdges_right_length]
+    omega
 
 theorem padEdges_interior (ys : List Rat) (pad wl wr i : Nat) (hi : i < ys.length) :
-    (padEdges ys pad wl wr).getD (pad + i) 0 = ys.getD i 0 := by sorry
+    (padEdges ys pad wl wr).getD (pad + i) 0 = ys.getD i 0 := by
+  unfold padEdges
+  by_cases h : pad = 0
+  · simp [h]
+  · simp only [h, if_false, List.getD_eq_getElem?_getD]
+    have hl := getEdges_left_length ys pad wl wr
+    rw [List.append_assoc, List.getElem?_append_right (by omega), hl, Nat.add_sub_cancel_left,
+      List.getElem?_append_left hi]
 
 /-- a window of one point repeats the edge value -/
 theorem padEdges_window_one (ys : List Rat) (pad k : Nat) (hk : k < pad) (hn : 1 ≤ ys.length) :
     (padEdges ys pad 1 1).getD k 0 = ys.getD 0 0 ∧
-    (padEdges ys pad 1 1).getD (pad + ys.length + k) 0 = ys.getD (ys.length - 1) 0 := by sorry
+    (padEdges ys pad 1 1).getD (pad + ys.length + k) 0 = ys.getD (ys.length - 1) 0 := by
+  have h : pad ≠ 0 := by omega
+  have _ := hn
+  unfold padEdges getEdges
+  simp only [h, if_false, if_true, List.getD_eq_getElem?_getD]
+  constructor
+  · rw [List.append_assoc, List.getElem?_append_left (by simpa using hk)]
+    simp [hk]
+  · rw [List.getElem?_append_right (by simp)]
+    simp [hk]
+
+/-! ### least-squares line -/
+theorem zipWith_map_same {α : Type} (f : Rat → Rat → Rat) (g h : α → Rat) (l : List α) :
+    List.zipWith f (l.map g) (l.map h) = l.map fun i => f (g i) (h i) := by
+  induction l with
+  | nil => simp
+  | cons x l ih => simp [ih]
+
+theorem sum_x_closed (x0 : Rat) (w : Nat) :
+    sumL ((List.range w).map fun (i : Nat) => x0 + (i : Rat)) = w * x0 + w * (w - 1) / 2 := by
+  induction w with
+  | zero => simp [sumL_nil]
+  | succ w ih => rw [sumL_range_succ, ih]; push_cast; ring
+
+theorem sum_xx_closed (x0 : Rat) (w : Nat) :
+    sumL ((List.range w).map fun (i : Nat) => (x0 + (i : Rat)) * (x0 + (i : Rat))) =
+      w * x0 ^ 2 + x0 * w * (w - 1) + (w - 1) * w * (2 * w - 1) / 6 := by
+  induction w with
+  | zero => simp [sumL_nil]
+  | succ w ih => rw [sumL_range_succ, ih]; push_cast; ring
+
+theorem lsLine_core (a b x0 : Rat) (w : Nat) (hw : 2 ≤ w) (s1 s2 t0 t1 : Rat)
+    (hs1 : s1 = w * x0 + w * (w - 1) / 2)
+    (hs2 : s2 = w * x0 ^ 2 + x0 * w * (w - 1) + (w - 1) * w * (2 * w - 1) / 6)
+    (ht0 : t0 = w * a + b * s1) (ht1 : t1 = a * s1 + b * s2) :
+    (w * t1 - s1 * t0) / (w * s2 - s1 * s1) = b ∧
+      (t0 - b * s1) / w = a := by
+  have hw' : (2 : Rat) ≤ w := by exact_mod_cast hw
+  have hw0 : (w : Rat) ≠ 0 := by linarith
+  have hden : (w : Rat) * s2 - s1 * s1 = w ^ 2 * (w - 1) * (w + 1) / 12 := by
+    rw [hs1, hs2]; ring
+  have hpos : (0 : Rat) < w ^ 2 * (w - 1) * (w + 1) / 12 := by
+    have h1 : (0 : Rat) < w ^ 2 := by positivity
+    have h2 : (0 : Rat) < w - 1 := by linarith
+    have h3 : (0 : Rat) < w + 1 := by linarith
+    exact div_pos (mul_pos (mul_pos h1 h2) h3) (by norm_num)
+  have hden0 : (w : Rat) * s2 - s1 * s1 ≠ 0 := by rw [hden]; exact ne_of_gt hpos
+  constructor
+  · rw [div_eq_iff hden0, ht0, ht1]; ring
+  · rw [div_eq_iff hw0, ht0]; ring
 
 /-- the least-squares line through exactly linear points is that line (at least two points) -/
 theorem lsLine_linear_exact (a b : Rat) (x0 : Int) (w : Nat) (hw : 2 ≤ w) :
-    lsLine ((List.range w).map fun (i : Nat) => a + b * (((x0 + (i : Int)) : Int) : Rat)) x0 = (a, b) := by sorry
+    lsLine ((List.range w).map fun (i : Nat) => a + b * (((x0 + (i : Int)) : Int) : Rat)) x0 = (a, b) := by
+  unfold lsLine
+  simp only [List.length_map, List.length_range, List.map_map, zipWith_map_same]
+  have hx : (fun (i : Nat) => (((x0 + (i : Int)) : Int) : Rat)) = fun (i : Nat) => (x0 : Rat) + (i : Rat) := by
+    funext i; push_cast; rfl
+  have hs1 := sum_x_closed (x0 : Rat) w
+  have hs2 := sum_xx_closed (x0 : Rat) w
+  have ht0 : sumL ((List.range w).map fun (i : Nat) => a + b * ((x0 : Rat) + (i : Rat))) =
+      w * a + b * sumL ((List.range w).map fun (i : Nat) => (x0 : Rat) + (i : Rat)) := by
+    rw [sumL_map_add (fun _ => a) (fun (i : Nat) => b * ((x0 : Rat) + (i : Rat))),
+      sumL_map_const, sumL_map_mul_left]
+    simp
+  have ht1 : sumL ((List.range w).map fun (i : Nat) => ((x0 : Rat) + (i : Rat)) * (a + b * ((x0 : Rat) + (i : Rat)))) =
+      a * sumL ((List.range w).map fun (i : Nat) => (x0 : Rat) + (i : Rat)) +
+      b * sumL ((List.range w).map fun (i : Nat) => ((x0 : Rat) + (i : Rat)) * ((x0 : Rat) + (i : Rat))) := by
+    rw [← sumL_map_mul_left, ← sumL_map_mul_left, ← sumL_map_add]
+    congr 1
+    apply List.map_congr_left
+    intro i _
+    ring
+  obtain ⟨h1, h2⟩ := lsLine_core a b (x0 : Rat) w hw _ _ _ _ hs1 hs2 ht0 ht1
+  simp only [Function.comp_def, Int.cast_add, Int.cast_natCast]
+  rw [h1, h2]
+
+theorem lsLine_of_getD (a b : Rat) (x0 : Int) (l : List Rat) (hw : 2 ≤ l.length)
+    (hl : ∀ i, i < l.length → l.getD i 0 = a + b * (((x0 + (i : Int)) : Int) : Rat)) :
+    lsLine l x0 = (a, b) := by
+  have h : l = (List.range l.length).map fun (i : Nat) => a + b * (((x0 + (i : Int)) : Int) : Rat) := by
+    conv_lhs => rw [← map_getD_range l]
+    apply List.map_congr_left
+    intro i hi
+    exact hl i (List.mem_range.mp hi)
+  rw [h]
+  exact lsLine_linear_exact a b x0 l.length hw
+
+theorem getEdges_linear (a b : Rat) (ys : List Rat) (pad wl wr : Nat) (hn : 2 ≤ ys.length)
+    (hwl : 2 ≤ wl) (hwr : 2 ≤ wr)
+    (hy : ∀ i, i < ys.length → ys.getD i 0 = a + b * (((pad + i : Nat) : Int) : Rat)) :
+    getEdges ys pad wl wr =
+      ((List.range pad).map fun (k : Nat) => a + b * (((k : Nat) : Int) : Rat),
+       (List.range pad).map fun (k : Nat) => a + b * (((pad + ys.length + k : Nat) : Int) : Rat)) := by
+  have h1 : wl ≠ 1 := by omega
+  have h2 : wr ≠ 1 := by omega
+  have hL : lsLine (ys.take wl) (pad : Int) = (a, b) := by
+    apply lsLine_of_getD
+    · rw [List.length_take]; omega
+    · intro i hi
+      rw [List.length_take] at hi
+      have := hy i (by omega)
+      rw [List.getD_eq_getElem?_getD] at this ⊢
+      rw [List.getElem?_take, if_pos (by omega), this]
+      push_cast; rfl
+  have hR : lsLine (ys.drop (ys.length - wr)) ((pad + (ys.length - (ys.drop (ys.length - wr)).length) : Nat) : Int) = (a, b) := by
+    apply lsLine_of_getD
+    · rw [List.length_drop]; omega
+    · intro i hi
+      rw [List.length_drop] at hi ⊢
+      have := hy (ys.length - wr + i) (by omega)
+      rw [List.getD_eq_getElem?_getD] at this ⊢
+      rw [List.getElem?_drop, this]
+      congr 3
+      omega
+  unfold getEdges
+  simp only [h1, h2, if_false, hL, hR, evalLine]
 
 /-- **exactly linear data is continued exactly**, on both sides, for every pad length, every data
 length ≥ 2 and all windows ≥ 2 (also windows longer than the data) -/
 theorem padEdges_linear_exact (a b : Rat) (n pad wl wr : Nat) (hn : 2 ≤ n) (hwl : 2 ≤ wl) (hwr : 2 ≤ wr) :
     padEdges ((List.range n).map fun (i : Nat) => a + b * (((pad + i : Nat) : Int) : Rat)) pad wl wr =
-      (List.range (n + 2 * pad)).map fun (k : Nat) => a + b * (((k : Nat) : Int) : Rat) := by sorry
+      (List.range (n + 2 * pad)).map fun (k : Nat) => a + b * (((k : Nat) : Int) : Rat) := by
+  unfold padEdges
+  by_cases h : pad = 0
+  · simp [h]
+  · have hlen : ((List.range n).map fun (i : Nat) => a + b * (((pad + i : Nat) : Int) : Rat)).length = n := by
+      simp
+    have hE := getEdges_linear a b
+      ((List.range n).map fun (i : Nat) => a + b * (((pad + i : Nat) : Int) : Rat)) pad wl wr
+      (by rw [hlen]; exact hn) hwl hwr (by
+        intro i hi
+        rw [hlen] at hi
+        simp [List.getD_eq_getElem?_getD, hi])
+    rw [hlen] at hE
+    simp only [h, if_false, hE]
+    have hr : n + 2 * pad = pad + n + pad := by omega
+    rw [hr, List.range_add, List.range_add, List.map_append, List.map_append, List.map_map, List.map_map]
+    rfl
 
-theorem paddedConvolveCore_length (padded kernel : List Rat) (p : Nat) :
-    (paddedConvolveCore padded kernel p).length = padded.length - 2 * p := by sorry
-
-/-- `p = ceil(min(N, K)/2) ≥ 1` for non-empty data and kernel, so `[p:-p]` is a proper slice -/
-theorem convPadding_pos (n k : Nat) (hn : 1 ≤ n) (hk : 1 ≤ k) : 1 ≤ convPadding n k := by sorry
+/-! ### padded_convolve -/
+theorem convSame_const (c : Rat) (N : Nat) (kernel : List Rat) (q : Nat)
+    (hlo : kernel.length ≤ q + (kernel.length - 1) / 2 + 1)
+    (hhi : q + (kernel.length - 1) / 2 < N) :
+    convSame (List.replicate N c) kernel q = sumL kernel * c := by
+  unfold convSame
+  simp only [List.length_replicate]
+  rw [List.map_congr_left (g := fun j => kernel.getD j 0 * c)]
+  · rw [sumL_map_mul_right, map_getD_range]
+  · intro j hj
+    rw [List.mem_range] at hj
+    have ht : ((q : Int) + (((kernel.length - 1) / 2 : Nat) : Int) - (j : Int)).toNat < N := by omega
+    rw [if_pos (by omega)]
+    simp only [List.getD_eq_getElem?_getD, List.getElem?_replicate, if_pos ht, Option.getD_some]
 
 /-- constant data stay constant under any normalised kernel no longer than the data, whenever the
 padding continues the constant -/
 theorem paddedConvolve_const (c : Rat) (n : Nat) (kernel : List Rat) (hk : 1 ≤ kernel.length) (hkn : kernel.length ≤ n)
     (hsum : sumL kernel = 1) (i : Nat) (hi : i < n) :
-    (paddedConvolveCore (List.replicate (n + 2 * convPadding n kernel.length) c) kernel (convPadding n kernel.length)).getD i 0 = c := by sorry
-
-theorem normalize_sum (l : List Rat) (h : sumL l ≠ 0) : sumL (normalize l) = 1 := by sorry
-theorem normalize_nonneg (l : List Rat) (h : ∀ v ∈ l, 0 ≤ v) : ∀ v ∈ normalize l, 0 ≤ v := by sorry
-theorem normalize_symm (l : List Rat) (h : l.reverse = l) : (normalize l).reverse = normalize l := by sorry
-
-theorem optimizeWindow_ge_one (hit : Nat → Bool) (inc maxHits minHw maxHw : Nat) :
-    1 ≤ optimizeWindow hit inc maxHits minHw maxHw := by sorry
+    (paddedConvolveCore (List.replicate (n + 2 * convPadding n kernel.length) c) kernel (convPadding n kernel.length)).getD i 0 = c := by
+  have hp : convPadding n kernel.length = (kernel.length + 1) / 2 := by
+    unfold convPadding ceilHalf
+    rw [Nat.min_eq_right hkn]
+  unfold paddedConvolveCore
+  rw [hp]
+  simp only [List.length_replicate, Nat.add_sub_cancel, List.getD_eq_getElem?_getD,
+    List.getElem?_map, List.getElem?_range hi, Option.map_some, Option.getD_some]
+  rw [convSame_const c _ kernel _ (by omega) (by omega), hsum, one_mul]
 
 end PbVerif.Lemmas
